@@ -304,6 +304,41 @@ def c11_jobs(tier):
     return js
 
 
+# ---------------------------------------------------------------- C12 / C13 / C14 / C18
+def c12_jobs(tier):
+    js = []
+    for agg in range(5):
+        for n in ([1, 2, 3] if tier == "quick" else [1, 2, 3, 4]):
+            js.append(job("ZZ_C12_Partition", C, n=n, agg=agg))
+    js.append(job("ZZ_C15_Hashes", P))
+    for frm, span in ([(1996, 10)] if tier == "quick" else [(0, 10), (1895, 10), (1996, 10), (9990, 10)]):
+        js.append(job("ZZ_C15_Week", P, **{"from": frm, "span": span, "_split": 65536}))
+    return js + lemmas()
+
+
+def c13_jobs(tier):
+    q = tier == "quick"
+    js = [job("ZZ_C13_Sort", S, n=n) for n in ([1, 2, 3] if q else [1, 2, 3, 4, 5])]
+    js += [job("ZZ_C13_Filter", S, n=n, e=1, mode=0) for n in ([1, 2] if q else [1, 2, 3])]
+    js += [job("ZZ_C13_Filter", S, n=1, e=2, mode=1), job("ZZ_C13_Filter", S, n=2, e=1, mode=1)]
+    if not q:
+        js += [job("ZZ_C13_Filter", S, n=1, e=1, mode=2), job("ZZ_C13_Filter", S, n=1, e=3, mode=1), job("ZZ_C13_Filter", S, n=2, e=2, mode=1)]
+    return js
+
+
+def c14_jobs(tier):
+    q = tier == "quick"
+    js = [job("ZZ_C14_TagScan", n=n) for n in range(0, (6 if q else 7) + 1)]
+    js += [job("ZZ_C14_TagTotals", S, n=1, e=2, mode=1), job("ZZ_C14_TagTotals", S, n=2, e=1, mode=1)]
+    if not q:
+        js += [job("ZZ_C14_TagTotals", S, n=2, e=2, mode=1), job("ZZ_C14_TagTotals", S, n=1, e=3, mode=1)]
+    return js
+
+
+def c18_jobs(tier):
+    return [job("ZZ_C18_Styling", C, cmd=c) for c in range(6)]
+
+
 MUT_STUBS = [MODELS["regexp"], MODELS["fmt"], MODELS["utf8"], MODELS["builder"], MODELS["bytealg"],
              "app.Context: harness implementation (zzContext) that holds the target file as text and mirrors app.context.ReconcileFile (parse -> ApplyReconciler -> write only on success)",
              "time.NewTicker/signal.Notify: a tick is always ready; the harness scripts the clock and cuts the endless pause loop after k ticks",
@@ -418,6 +453,38 @@ CHECKS = {
                    "thorough": "all 12 line-ending x indentation-rotation combinations, 3-line files"},
         "outside": "date separator / clock convention / dash spacing / placeholder length of generated values (only indentation, line ending, validity and determinism are asserted); configured preferences",
         "stubs": MUT_STUBS, "assumptions": MUT_ASSUME,
+    },
+    "C12": {
+        "jobs": c12_jobs,
+        "bounds": {"quick": "1-3 records on 8 dates around year / ISO-week-year / leap-day / month boundaries (every choice with repetition, any order), totals symbolic in [-100000,100000], all 5 aggregations, --fill over the spanned range, klog today split; bucket hashes for all field values; week buckets on 1996-2005",
+                   "thorough": "4 records; week buckets on four decade windows"},
+        "outside": "the rendered table text (alignment is C18); print --with-totals prefixes (local to the printing function); --decimal / --diff cell formatting; other dates than the boundary set for the composition (the bucket rule itself is proven for all dates in C15)",
+        "stubs": [MODELS["sort"], MODELS["tabulate"], MODELS["fmt"]],
+        "assumptions": COMMON_ASSUME + ["reference periods of the 8 boundary dates (ISO week-year and week) are written down in the harness from the calendar"],
+    },
+    "C13": {
+        "jobs": c13_jobs,
+        "bounds": {"quick": "sort of 1-3 records with symbolic dates (2019-2021, any month, day 1-28), asc and desc; date clauses (--date, --since, --since+--until) on 1-2 records with symbolic dates; tag clauses (#x, #y, #x=v at record and entry level) x 5 entry types x all entry kinds on 1 record x 2 entries and 2 records x 1 entry",
+                   "thorough": "sort up to 5 records; 3 records for date clauses; all clause kinds combined on one record; 3 entries"},
+        "outside": "the translation of --after/--before/--period and the today/this-/last- shortcuts into a query (FilterArgs.ApplyFilter: uses the period code proven in C15; not composed here); sort of more than 12 records (pdqsort leaves its insertion-sort regime)",
+        "stubs": [MODELS["sort"], MODELS["regexp"]],
+        "assumptions": COMMON_ASSUME + ["dates are raw field triples (Filter and Sort only compare year/month/day)"],
+    },
+    "C14": {
+        "jobs": c14_jobs,
+        "bounds": {"quick": "every ASCII one-line summary of 0..6 bytes against a reference tag scanner written from the specification; tag totals for record/entry tag combinations of {#x, #y, #x=v} on 1x2 and 2x1 records x entries with symbolic durations",
+                   "thorough": "summaries up to 7 bytes; 2x2 and 1x3 shapes"},
+        "outside": "non-ASCII letters in tag names (the Unicode letter class is only reached with concrete runes); summaries longer than the bound; multi-line summaries",
+        "stubs": [MODELS["regexp"], MODELS["sort"]],
+        "assumptions": COMMON_ASSUME,
+    },
+    "C18": {
+        "jobs": c18_jobs,
+        "bounds": {"quick": "commands print, print --with-totals, total --diff, report --diff --fill (5 aggregations), tags --values --count, today --diff on a two-record file whose record summary has 2 symbolic bytes (full byte range incl. ESC) and a symbolic digit, under themes dark, light, basic vs no_colour",
+                   "thorough": "same"},
+        "outside": "other files; user text that itself contains SGR sequences is compared after stripping on both sides; NO_COLOR / --no-style plumbing (kong)",
+        "stubs": [MODELS["regexp"], MODELS["fmt"], MODELS["builder"], MODELS["sort"]],
+        "assumptions": COMMON_ASSUME,
     },
     "C07": {
         "jobs": c07_jobs,
